@@ -341,7 +341,13 @@ def run_shard(args):
     while todo:
         json.dump({"out": out, "scratch": os.path.join(CACHE, "scratch"), "histories": todo}, open(jp, "w"))
         rc, o = run(["timeout", "-k", "2", "1500", ZV, "incr", jp], timeout=1600)
-        got = [json.loads(l) for l in open(out)] if os.path.exists(out) else []
+        got = []
+        if os.path.exists(out):
+            for l in open(out, errors="replace"):
+                try:
+                    got.append(json.loads(l))
+                except ValueError:
+                    break           # the process died while writing this line
         if rc == 0:
             all_lines += got
             break
